@@ -247,7 +247,26 @@ class ExprMixin:
     def ev_Dict(self, e, p):
         if not e.keys:
             return SV(T.EMPTYDICT)
-        raise Unsupported("non-empty dict literal")
+        if all(isinstance(k, ast.Constant) and isinstance(k.value, str) for k in e.keys):
+            m = TH.EMPTY_META
+            for k, v in zip(e.keys, e.values):
+                m = TH.mset(m, self.field_const(k.value), self.to_val(self.ev(v, p)))
+            return T.scalar(T.META, m)
+        raise Unsupported("dict literal with computed keys")
+
+    def field_const(self, name):
+        return z3.Const("field_" + "".join(ch if ch.isalnum() else "_" for ch in name), T.FieldS)
+
+    def to_val(self, v):
+        """Injection of a Python value into the opaque metadata-value sort."""
+        if v.ty == T.VAL:
+            return v.t
+        if v.ty == T.NONE:
+            return z3.Const("val_None", T.ValS)
+        if not v.ty.scalar or v.ty.sort() is None:
+            raise Unsupported(f"metadata value of type {v.ty}")
+        inj = z3.Function("val_of_" + "".join(ch if ch.isalnum() else "_" for ch in v.ty.name), v.ty.sort(), T.ValS)
+        return inj(v.t)
 
     def ev_List(self, e, p):
         if not e.elts:
@@ -287,7 +306,11 @@ class ExprMixin:
         return T.scalar(st, s)
 
     def ev_IfExp(self, e, p):
-        c = self.truth(self.ev(e.test, p), p)
+        c = z3.simplify(self.truth(self.ev(e.test, p), p))
+        if z3.is_true(c):
+            return self.ev(e.body, p)
+        if z3.is_false(c):
+            return self.ev(e.orelse, p)
         self.guards.append(c)
         try:
             a = self.ev(e.body, p)
@@ -302,9 +325,21 @@ class ExprMixin:
 
     def ev_BoolOp(self, e, p):
         is_and = isinstance(e.op, ast.And)
-        terms, pushed = [], 0
+        first = self.ev(e.values[0], p)
+        if first.ty != T.BOOL and len(e.values) == 2 and not self.spec_mode:
+            # value semantics: `x or default` / `x and y`
+            t = self.truth(first, p)
+            self.guards.append(z3.Not(t) if not is_and else t)
+            try:
+                second = self.ev(e.values[1], p)
+            finally:
+                self.guards.pop()
+            return self.merge(t, second, first) if is_and else self.merge(t, first, second)
+        terms, pushed = [self.truth(first, p)], 0
         try:
-            for sub in e.values:
+            self.guards.append(terms[0] if is_and else z3.Not(terms[0]))
+            pushed += 1
+            for sub in e.values[1:]:
                 t = self.truth(self.ev(sub, p), p)
                 terms.append(t)
                 self.guards.append(t if is_and else z3.Not(t))
